@@ -13,7 +13,8 @@ LEVEL = "fault_enumeration"
 RULE = ("the 23 (start state, call) cases of C13 (store_object new / duplicate / empty content, first / additional "
         "pid, cid with a list but no object; tag_object; delete_object sole / shared reference, with metadata, "
         "missing object; store_metadata create / overwrite; delete_metadata one / all; bystander pids share the "
-        "subject's object and carry metadata). For each case a dry run lists the call's operations; for EVERY "
+        "subject's object and carry metadata; thorough: each case in 5 identifier / configuration variants - pid lengths "
+        "1..35 incl. prefix-related and non-ASCII ones, depth 1-5, width 1-4, all five store algorithms). For each case a dry run lists the call's operations; for EVERY "
         "mutating operation (create, open-for-writing, rename, remove, mkdir, chmod, the flush half of an in-place "
         "truncate, the buffer flush at close) a child process is forked that performs the call and os._exit()s "
         "immediately before that operation (what SIGKILL leaves: no atexit, no buffers flushed); the parent then "
@@ -32,8 +33,10 @@ WATCHDOG_S = 3600
 
 
 def shards(tier, seed):
-    idxs = list(range(len(F.CASES)))
-    return [(c, tier, s) for c, s in zip(chunk(idxs, ncpu()), split_seeds(seed + 10, ncpu()))]
+    nvar = 1 if tier == "quick" else len(F.VARIANTS)
+    idxs = [(ci, v) for v in range(nvar) for ci in range(len(F.CASES))]
+    return [(c, tier, s) for c, s in zip(chunk(idxs, ncpu() * (1 if tier == "quick" else 2)),
+                                         split_seeds(seed + 10, ncpu() * 2))]
 
 
 def min_required(tier):
@@ -43,10 +46,10 @@ def min_required(tier):
 def run_shard(case_idxs, tier, sub_seed):
     res = ShardResult()
     states = set()
-    for ci in case_idxs:
+    for ci, variant in case_idxs:
         scratch = new_scratch("crash")
         try:
-            case = F.Case(ci, scratch)
+            case = F.Case(ci, scratch, variant=variant)
             res.count("cases")
             sites = case.sites(F.CRASH_KINDS)
             if not sites:
@@ -68,14 +71,14 @@ def run_shard(case_idxs, tier, sub_seed):
                     probs, label = F.judge_crash(case, rc)
                     states.add(label)
                     res.evaluations += 1
-                    res.distinct.add(repr((ci, site, rc)))
+                    res.distinct.add(repr((ci, variant, site, rc)))
                     op = case.ops[site] if site < len(case.ops) else None
                     for symptom, detail in probs:
                         sig = {"symptom": symptom, "call": op_shape(case.call), "case": case.label,
                                "crash_before": site_class(case, op) if op else "after-call", "interrupted_pid_state": label}
                         if symptom.startswith("bystander-changed"):
                             sig["changed_fields"] = changed_fields(detail)
-                        wit = {"engine": "crash", "case_index": ci, "case": case.label, "start": case.start_name,
+                        wit = {"engine": "crash", "case_index": ci, "variant": variant, "case": case.label, "start": case.start_name,
                                "call": case.call, "site": site, "crash_before": op.describe(case.rundir) if op else "after-call",
                                "recovery_content": rc, "detail": jsonable(detail)}
                         if symptom in SYMPTOMS:
@@ -107,7 +110,7 @@ def replay(witness):
     res = ShardResult()
     scratch = new_scratch("crashr")
     try:
-        case = F.Case(witness["case_index"], scratch)
+        case = F.Case(witness["case_index"], scratch, variant=witness.get("variant", 0))
         print("case:", case.label, "| start:", case.start_name, "| call:", case.call)
         for i, op in enumerate(case.ops):
             mark = " <== process dies before this operation" if i == witness["site"] else ""
